@@ -191,6 +191,10 @@ pub struct CacheFacts {
     pub slot_filled_after: bool,
     pub fp_now: String,
     pub fp_cache: String,
+    /// aggregation only: the call replaced the content of a NON-EMPTY slot, and the fingerprint
+    /// now stored is not the one of the circuit whose data the slot holds (on a first fill the
+    /// same comparison validates the harness replica instead)
+    pub stale_fp_after_refill: Option<String>,
 }
 
 pub struct Outcome {
@@ -490,7 +494,13 @@ pub fn exec_a(
         if let (Some(after), true, true) = (slot_obj.as_ref(), matches!(res, Ok(Ok(_))), slot_changed) {
             // validation of the harness replica against the implementation: a freshly stored
             // fingerprint must be the counters of the replica of this call's circuit
-            if after.circuit_fingerprint != cnt_now {
+            if after.circuit_fingerprint != cnt_now && before.is_some() {
+                facts.stale_fp_after_refill = Some(format!(
+                    "slot refilled with the data of a circuit with counters {} but labelled {}",
+                    fp_str(&cnt_now),
+                    fp_str(&after.circuit_fingerprint)
+                ));
+            } else if after.circuit_fingerprint != cnt_now {
                 return Err(format!(
                     "HARNESS: replica counters {} != fingerprint stored by the implementation {}",
                     fp_str(&cnt_now),
